@@ -267,6 +267,7 @@ type runEnv struct {
 	calls   []probeCall
 	helpers map[string]interface{}
 	parts   map[string]string
+	self    string // the text of the template being rendered: partial("self") includes it again
 }
 
 func newRunEnv() *runEnv {
@@ -357,6 +358,9 @@ func (e *runEnv) contextW(data map[string]absVal, wrapped []string) *plush.Conte
 	ctx.Set("partialFeeder", func(name string) (string, error) {
 		if s, ok := e.parts[name]; ok {
 			return s, nil
+		}
+		if name == "self" && e.self != "" {
+			return e.self, nil
 		}
 		return "", fmt.Errorf("no partial %q", name)
 	})
